@@ -2,10 +2,10 @@
  * The space is a table: routine x single-argument corruption x base call x type. */
 #include "xs.h"
 
-static const char *const CNT[] = { "gssv", "gssvx", "gsisx", "gstrs", "gsrfs", "gscon", "gsequ", "sp_trsv", "corruptions_rejected", "factored_base_calls", NULL };
+static const char *const CNT[] = { "gssv", "gssvx", "gsisx", "gstrs", "gsrfs", "gscon", "gsequ", "sp_trsv", "corruptions_rejected", "factored_base_calls", "sp_gemv", "reports_through_input_error", NULL };
 static const char *const RAT[] = { NULL };
 
-enum { R_GSSV, R_GSSVX, R_GSISX, R_GSTRS, R_GSRFS, R_GSCON, R_GSEQU, R_TRSV, NROUT };
+enum { R_GSSV, R_GSSVX, R_GSISX, R_GSTRS, R_GSRFS, R_GSCON, R_GSEQU, R_TRSV, R_GEMV, NROUT };
 /* corruption of a SuperMatrix header */
 enum { M_NONSQUARE, M_NEGATIVE, M_STYPE, M_DTYPE1, M_DTYPE2, M_DTYPE3, M_MTYPE, M_NKINDS };
 static void corrupt_matrix(SuperMatrix *M, int kind, const vf_type *T)
@@ -59,6 +59,8 @@ typedef struct { int pos; int code; const char *what; } corr;
 #define ARG_TRANSC 710
 #define ARG_DIAG 711
 #define ARG_FACT_NOT_DOFACT 712
+#define ARG_INCX0 713
+#define ARG_INCY0 714
 #define MLIST(pos, base) { pos, base + M_NONSQUARE, "non-square" }, { pos, base + M_NEGATIVE, "negative dimension" }, { pos, base + M_STYPE, "wrong Stype" }, { pos, base + M_DTYPE1, "wrong Dtype" }, { pos, base + M_DTYPE2, "wrong Dtype" }, { pos, base + M_DTYPE3, "wrong Dtype" }, { pos, base + M_MTYPE, "wrong Mtype" }
 #define DLIST(pos, base) { pos, base + D_NCOLNEG, "ncol < 0" }, { pos, base + D_LDA, "lda < n" }, { pos, base + D_STYPE, "wrong Stype" }, { pos, base + D_DTYPE1, "wrong Dtype" }, { pos, base + D_DTYPE2, "wrong Dtype" }, { pos, base + D_DTYPE3, "wrong Dtype" }, { pos, base + D_MTYPE, "wrong Mtype" }
 static const corr T_GSSV[] = { { 1, ARG_FACT_NOT_DOFACT, "Fact != DOFACT" }, { 1, OPT_FACT_HI, "Fact above enum" }, { 1, OPT_FACT_LO, "Fact below enum" }, MLIST(2, ARG_A), DLIST(7, ARG_B) };
@@ -71,9 +73,10 @@ static const corr T_GSRFS[] = { { 1, ARG_TRANS_HI, "trans above enum" }, { 1, AR
 static const corr T_GSCON[] = { { 1, ARG_NORM, "bad norm letter" }, MLIST(2, ARG_L), MLIST(3, ARG_U) };
 static const corr T_GSEQU[] = { { 1, ARG_A + M_NEGATIVE, "negative dimension" }, { 1, ARG_A + M_STYPE, "wrong Stype" }, { 1, ARG_A + M_DTYPE1, "wrong Dtype" }, { 1, ARG_A + M_DTYPE2, "wrong Dtype" }, { 1, ARG_A + M_DTYPE3, "wrong Dtype" }, { 1, ARG_A + M_MTYPE, "wrong Mtype" } };
 static const corr T_TRSV[] = { { 1, ARG_UPLO, "bad uplo letter" }, { 2, ARG_TRANSC, "bad trans letter" }, { 3, ARG_DIAG, "bad diag letter" }, { 4, ARG_L + M_NONSQUARE, "L non-square" }, { 4, ARG_L + M_NEGATIVE, "L negative" }, { 5, ARG_U + M_NONSQUARE, "U non-square" }, { 5, ARG_U + M_NEGATIVE, "U negative" } };
+static const corr T_GEMV[] = { { 1, ARG_TRANSC, "bad trans letter" }, { 3, ARG_A + M_NEGATIVE, "negative dimension" }, { 5, ARG_INCX0, "incx = 0" }, { 8, ARG_INCY0, "incy = 0" } };
 #define TL(t) t, (int)(sizeof t / sizeof *t)
 static const struct { const char *name; const corr *tab; int n; } ROUT[NROUT] = {
-    { "gssv", TL(T_GSSV) }, { "gssvx", TL(T_GSSVX) }, { "gsisx", TL(T_GSSVX) }, { "gstrs", TL(T_GSTRS) }, { "gsrfs", TL(T_GSRFS) }, { "gscon", TL(T_GSCON) }, { "gsequ", TL(T_GSEQU) }, { "sp_trsv", TL(T_TRSV) } };
+    { "gssv", TL(T_GSSV) }, { "gssvx", TL(T_GSSVX) }, { "gsisx", TL(T_GSSVX) }, { "gstrs", TL(T_GSTRS) }, { "gsrfs", TL(T_GSRFS) }, { "gscon", TL(T_GSCON) }, { "gsequ", TL(T_GSEQU) }, { "sp_trsv", TL(T_TRSV) }, { "sp_gemv", TL(T_GEMV) } };
 static long rout_off[NROUT + 1];
 static long total_corr(void) { long s = 0; for (int i = 0; i < NROUT; i++) { rout_off[i] = s; s += ROUT[i].n; } rout_off[NROUT] = s; return s; }
 
@@ -118,7 +121,7 @@ static void run_C18(const vcase *c, vres *r)
     if (!drivers && rt != R_GSSV && c->fact == 3) { r->status = 2; return; }
     if (rt != R_GSSV && !drivers && c->stor == 1) { r->status = 2; return; }   /* computational routines take column storage only */
     if (rt == R_GSISX && c->stor == 1 && factored) { r->status = 2; return; }
-    WK_COUNT(rt);
+    WK_COUNT(rt == R_GEMV ? 10 : rt);
     xs s; xs_init(&s, T, n, c->pat, c->vals, (rt == R_GSSV || drivers) ? c->stor : 0); s.ilu = (rt == R_GSISX);
     dmat B; make_rhs(T, &s.A_orig, 0, 1, 2, &B); xs_set_rhs(&s, &B, 0, 0);
     superlu_options_t opt; vcase cc = *c; cc.fact = 0; cc.equil = c->equil; cc.trans = 0; cc.refine = 0;
@@ -139,7 +142,7 @@ static void run_C18(const vcase *c, vres *r)
     if (factored) opt.Fact = FACTORED;
     char ferr[NMAX * 8], berr[NMAX * 8]; memcpy(ferr, s.ferr, sizeof ferr); memcpy(berr, s.berr, sizeof berr);
     SuperMatrix A = s.S.A, Bm = s.B.M, Xm = s.X.M, L = s.L, U = s.U; DNformat Bst = *(DNformat *)s.B.M.Store, Xst = *(DNformat *)s.X.M.Store; Bm.Store = &Bst; Xm.Store = &Xst;
-    trans_t trans = NOTRANS; char norm[2] = "1", uplo[2] = "L", trc[2] = "N", diag[2] = "U"; long lwork = 0;
+    trans_t trans = NOTRANS; char norm[2] = "1", uplo[2] = "L", trc[2] = "N", diag[2] = "U"; long lwork = 0; int incx = 1, incy = 1;
     int code = K->code;
     /* apply the single corruption */
     if (code == OPT_FACT_HI) opt.Fact = (fact_t)4; else if (code == OPT_FACT_LO) opt.Fact = (fact_t)-1; else if (code == ARG_FACT_NOT_DOFACT) opt.Fact = SamePattern;
@@ -156,10 +159,11 @@ static void run_C18(const vcase *c, vres *r)
     else if (code == ARG_R_ZERO) T->rst(s.Rbuf, (int[]){ 0, n / 2, n - 1 }[c->aux3 % 3], 0.0); else if (code == ARG_R_NEG) T->rst(s.Rbuf, (int[]){ 0, n / 2, n - 1 }[c->aux3 % 3], -1.0);
     else if (code == ARG_C_ZERO) T->rst(s.Cbuf, (int[]){ 0, n / 2, n - 1 }[c->aux3 % 3], 0.0); else if (code == ARG_C_NEG) T->rst(s.Cbuf, (int[]){ 0, n / 2, n - 1 }[c->aux3 % 3], -2.0);
     else if (code == ARG_TRANS_HI) trans = (trans_t)3; else if (code == ARG_TRANS_LO) trans = (trans_t)-1;
+    else if (code == ARG_INCX0) incx = 0; else if (code == ARG_INCY0) incy = 0;
     else if (code == ARG_NORM) norm[0] = 'X'; else if (code == ARG_UPLO) uplo[0] = 'X'; else if (code == ARG_TRANSC) trc[0] = 'X'; else if (code == ARG_DIAG) diag[0] = 'X';
     snap before, after; take(&s, &before, ferr, berr);
     SuperLUStat_t st; StatInit(&st); long info = -999; int info_i = -999; int_t info_t = -999; char rc[8], xb[NMAX * 16]; memset(xb, 0, sizeof xb);
-    long live0 = vf_live_count();
+    long live0 = vf_live_count(); int ie0 = vf_ie_count; char gx[NMAX * 16], gy[NMAX * 16], gy0[NMAX * 16]; memset(gx, 0x3c, sizeof gx); memset(gy, 0x3d, sizeof gy); memcpy(gy0, gy, sizeof gy);
     switch (rt) {
     case R_GSSV: T->gssv(&opt, &A, s.perm_c, s.perm_r, &s.L, &s.U, &Bm, &st, &info_t); info = (long)info_t; break;
     case R_GSSVX: T->gssvx(&opt, &A, s.perm_c, s.perm_r, s.etree, s.equed, s.Rbuf, s.Cbuf, &L, &U, NULL, (int_t)lwork, &Bm, &Xm, s.rpg, s.rcond, ferr, berr, &s.Glu, &s.mu, &st, &info_t); info = (long)info_t; break;
@@ -169,11 +173,16 @@ static void run_C18(const vcase *c, vres *r)
     case R_GSCON: T->gscon(norm, &L, &U, 1.0, rc, &st, &info_i); info = info_i; break;
     case R_GSEQU: { char a1[8], a2[8], a3[8]; T->gsequ(&A, s.Rbuf, s.Cbuf, a1, a2, a3, &info_i); info = info_i; } break;
     case R_TRSV: T->sp_trsv(uplo, trc, diag, &L, &U, xb, &st, &info_i); info = info_i; break;
+    case R_GEMV: T->sp_gemv(trc, 2.0, &A, gx, incx, 3.0, gy, incy); info = (vf_ie_count > ie0) ? -vf_ie_last : 0;      /* no info argument: the report through input_error is the observable */
+        if (memcmp(gy, gy0, sizeof gy)) info = -998; break;
     }
     StatFree(&st);
     (void)live0;
     take(&s, &after, ferr, berr);
     r->nontrivial = 1; r->outcome = (uint64_t)(info + 1000) * 131 + rt;
+    if (rt == R_GEMV && info == -998) wk_fail(r, "modified-on-reject", "%csp_gemv with %s wrote to y", T->letter, K->what);
+    else if (info == -K->pos && vf_ie_count == ie0 + 1 && vf_ie_last == K->pos) WK_COUNT(11);   /* counted, not demanded: the property speaks about info */
+    if (r->status == 1) ; else
     if (info != -K->pos) wk_fail(r, "wrong-info", "%c%s with %s (argument %d): info=%ld, documented %d", T->letter, ROUT[rt].name, K->what, K->pos, info, -K->pos);
     else { const char *d = diff(&before, &after); if (d) wk_fail(r, "modified-on-reject", "%c%s rejected %s (info=%ld) but modified %s", T->letter, ROUT[rt].name, K->what, info, d); else WK_COUNT(8); }
     if (r->status == 1) { char sg[96]; snprintf(sg, sizeof sg, "%.30s:%c%s:arg%d:code%d%s", r->sig, T->letter, ROUT[rt].name, K->pos, K->code, factored ? ":factored" : ""); snprintf(r->sig, sizeof r->sig, "%s", sg); }
